@@ -232,6 +232,13 @@ def run_case(case, ctx):
         q += 1
         ops.append(["openid", "q%d" % q, 0, a])
         ops.append(["drop", "q%d" % q])
+    # a job created by ANOTHER session after this one looked its id up in vain is found from then on
+    for n in list(range(ninit, len(sps)))[:2]:
+        q += 1
+        ops.append(["openid", "q%d" % q, 0, ids[n]])            # KeyError: not a job yet
+        ops.append(["xinit", 0, sps[n]])
+        ops.append(["openid", "q%d" % q, 0, ids[n]])            # the job, by full id
+        ops.append(["drop", "q%d" % q])
     records, failures = W.lockstep(ops, ctx, 2)
     failures = [f for f in failures if not f.startswith("KNOWN[")]
     failures += extra_oracle(case, ctx)
